@@ -619,6 +619,30 @@ def probe_copy_findings(ctx, exe, db, facts):
                       {"facts": facts, "present": nums})
 
 
+CRASH_PROBES = {
+    "crash-gas-phase-mixed-from-nothing": (
+        ["GAS_PHASE_MIX 2\n 5 1\nEND\n", "SOLUTION 2-3\n pH 7\n Ca 1\n Cl 2\nEND\n", "RUN_CELLS\n -cells 2-3\nEND\n"],
+        "a gas phase that GAS_PHASE_MIX built from no existing gas phase (empty, no type/volume data) is used by RUN_CELLS "
+        "and the next cell has no gas phase"),
+    "crash-modify-of-empty-solid-solution": (
+        ["SOLID_SOLUTIONS_MIX 0\n 2 1\nEND\n", "SOLUTION 1\n pH 7.5\n Ca 1\n Cl 2\nEND\n", "REACTION_TEMPERATURE 1\n 28\nEND\n",
+         "SOLID_SOLUTIONS_MODIFY 0-1\n -solid_solution CaSr\nEND\n", "RUN_CELLS\n -cells 1\nEND\n"],
+        "a solid solution added by SOLID_SOLUTIONS_MODIFY to an empty (mixed from nothing) assemblage is used in a calculation"),
+}
+
+
+def probe_crash_findings(ctx, exe, db):
+    """two ways in which an entity that a *_MIX keyword built from no existing component kills the process when a
+    later calculation reads it (found by the random histories; replayed here on fixed minimal inputs)"""
+    for key, (calls, what) in CRASH_PROBES.items():
+        lines = ["new " + hx(str(db))] + ["run " + hx(t) for t in calls]
+        r = subprocess.run([str(exe)], input="\n".join(lines) + "\n", text=True, capture_output=True, timeout=120)
+        done = len([ln for ln in r.stdout.splitlines() if ln.startswith("R ")])
+        ctx.cov["probe_" + key] = "completed" if r.returncode == 0 else f"exit {r.returncode} after {done} of {len(calls)} calls"
+        if r.returncode != 0:
+            ctx.finding(key, f"engine process died (exit {r.returncode}) in call {done}: {what}", {"calls": calls, "crash": key})
+
+
 # ------------------------------------------------------------------------------------------------ main
 def check_chunk(ctx, exe, db, phases, templates, cfg, chunk):
     eng, crashed, errtail = run_engine(exe, db, chunk, templates)
@@ -689,7 +713,7 @@ def run(ctx):
     phases = load_phases(db)
     templates = harvest_templates(exe, db)
     cfg = facts["copy_loop"]
-    nh = ctx.n(3000, 12000)
+    nh = ctx.n(3000, 30000)
     max_ops = ctx.n(15, 40)
     if not ok:
         nh, max_ops = max(nh, 2000), 40
@@ -751,6 +775,7 @@ def run(ctx):
                 ctx.violation("RUN_CELLS on a cell and USE of every reactant of that number + SAVE leave different stores: " + str(res[1])[:400],
                               {"runcells_case": case, "result": res})
     probe_copy_findings(ctx, exe, db, facts)
+    probe_crash_findings(ctx, exe, db)
     if hists:
         ctx.sample({"calls": [G.render_run(r_, templates) for r_ in hists[0][:2]]})
         ctx.sample({"model_lines": G.model_lines(hists[0][:2], templates, cfg)[:12]})
@@ -793,6 +818,8 @@ def replay(ctx, data):
         print("replay:", r)
         if r and r[0] == "bad":
             ctx.violation("replayed RUN_CELLS pair still differs", data)
+    elif "crash" in data:
+        probe_crash_findings(ctx, exe, db)
     elif "calls" in data:
         probe_copy_findings(ctx, exe, db, facts)
     else:
